@@ -61,15 +61,21 @@ fn values(word: &[u8]) -> Vec<i64> {
 trait Num4: Copy + std::fmt::Debug + PartialOrd + 'static {
     const NAME: &'static str;
     fn from_i(i: i64) -> Self;
+    /// 15 strictly increasing values reaching both ends of the type's range (for floats
+    /// including both infinities)
+    fn palette() -> [Self; 15];
     fn classify(a: &Array1<Self>, view: usize) -> Result<Cls, String>;
 }
 
 macro_rules! impl_num4 {
-    ($t:ty, $name:expr) => {
+    ($t:ty, $name:expr, $off:expr, $pal:expr) => {
         impl Num4 for $t {
             const NAME: &'static str = $name;
             fn from_i(i: i64) -> Self {
-                i as $t
+                (i + $off) as $t
+            }
+            fn palette() -> [Self; 15] {
+                $pal
             }
             fn classify(a: &Array1<Self>, view: usize) -> Result<Cls, String> {
                 let n = a.len();
@@ -95,15 +101,55 @@ macro_rules! impl_num4 {
         }
     };
 }
-impl_num4!(f64, "f64");
-impl_num4!(f32, "f32");
-impl_num4!(i32, "i32");
-impl_num4!(i64, "i64");
+impl_num4!(f64, "f64", 0, [f64::NEG_INFINITY, f64::MIN, -1e300, -1e10, -1.0, -1e-300, -5e-324, 0.0, 5e-324, 1e-300, 1.0, 1e10, 1e300, f64::MAX, f64::INFINITY]);
+impl_num4!(f32, "f32", 0, [f32::NEG_INFINITY, f32::MIN, -1e30, -1e10, -1.0, -1e-30, -1e-45, 0.0, 1e-45, 1e-30, 1.0, 1e10, 1e30, f32::MAX, f32::INFINITY]);
+impl_num4!(i32, "i32", 0, [i32::MIN, i32::MIN + 1, -2_000_000_000, -1_000_000_000, -65536, -2, -1, 0, 1, 2, 65536, 1_000_000_000, 2_000_000_000, i32::MAX - 1, i32::MAX]);
+impl_num4!(i64, "i64", 0, [i64::MIN, i64::MIN + 1, -6_000_000_000_000_000_000, -(1 << 53) - 1, -(1 << 31), -2, -1, 0, 1, 2, 1 << 31, (1 << 53) + 1, 6_000_000_000_000_000_000, i64::MAX - 1, i64::MAX]);
+impl_num4!(u32, "u32", 1000, [0, 1, 2, 3, 100, 65535, 65536, 1_000_000_000, (1 << 31) - 1, 1 << 31, (1 << 31) + 1, 3_000_000_000, 4_000_000_000, u32::MAX - 1, u32::MAX]);
+impl_num4!(u64, "u64", 1000, [0, 1, 2, 3, 100, 65535, 1 << 32, (1 << 53) + 1, (1 << 63) - 1, 1 << 63, (1 << 63) + 1, 12_000_000_000_000_000_000, 18_000_000_000_000_000_000, u64::MAX - 1, u64::MAX]);
+
+/// the same relation word realised with values from both ends of the type's range: the lowest
+/// level of the walk becomes the smallest value (-inf for floats), the highest the largest (+inf)
+fn extreme_values<N: Num4>(word: &[u8]) -> Option<Vec<N>> {
+    let levels = values(word);
+    let (lo, hi) = (*levels.iter().min().unwrap(), *levels.iter().max().unwrap());
+    let m = (hi - lo + 1) as usize;
+    if m > 15 {
+        return None;
+    }
+    let pal = N::palette();
+    Some(
+        levels
+            .iter()
+            .map(|&l| {
+                let r = (l - lo) as usize;
+                pal[if r < m / 2 { r } else { 15 - (m - r) }]
+            })
+            .collect(),
+    )
+}
 
 fn check_word<N: Num4>(word: &[u8], ev: &mut Ev, case: u64, views: &[usize]) {
     let vals = values(word);
     let arr: Array1<N> = vals.iter().map(|&i| N::from_i(i)).collect();
     let want = reference(word);
+    // the same word at the ends of the type's range (infinite ties, steps wider than MAX)
+    if let Some(ext) = extreme_values::<N>(word) {
+        let a: Array1<N> = Array1::from(ext);
+        ev.add("classifications", 1);
+        ev.add("extreme_value_classifications", 1);
+        match N::classify(&a, views[0]) {
+            Ok(got) if got == want => {}
+            other => {
+                ev.violation(
+                    "C12:misclassified",
+                    &format!("{} vector {:?} (view {}): expected {:?}, got {:?}", N::NAME, a.to_vec(), views[0], want, other),
+                    case,
+                    J::obj().set("elem", N::NAME).set("values", format!("{:?}", a.to_vec())).set("view", views[0]),
+                );
+            }
+        }
+    }
     for &view in views {
         ev.add("classifications", 1);
         match N::classify(&arr, view) {
@@ -166,6 +212,8 @@ fn main() {
                     short!(f32);
                     short!(i32);
                     short!(i64);
+                    short!(u32);
+                    short!(u64);
                     ev.case(n as u64 ^ 0x77, true);
                 }
             }
@@ -186,6 +234,10 @@ fn main() {
                 check_word::<f32>(&word, ev, case, &[0]);
                 check_word::<i32>(&word, ev, case, &[0]);
                 check_word::<i64>(&word, ev, case, &[0]);
+            }
+            if len <= 8 {
+                check_word::<u32>(&word, ev, case, &[0]);
+                check_word::<u64>(&word, ev, case, &[0]);
             }
             let h = word.iter().fold(len as u64, |h, &c| h.wrapping_mul(3).wrapping_add(c as u64 + 1));
             let lt = word.contains(&0);
